@@ -920,6 +920,30 @@ pub fn static_checks(comp: &BTreeMap<String, Val>, rf: &Reference) -> StaticRepo
             _ => None,
         }
     };
+    // a few scripts and regions the tables know (first, middle, last of each universe): the
+    // components added to a row's key to make a lookup that goes to a neighbouring table
+    let pick3 = |mut v: Vec<u128>| -> Vec<u128> {
+        v.sort();
+        v.dedup();
+        if v.len() <= 3 {
+            v
+        } else {
+            vec![v[0], v[v.len() / 2], v[v.len() - 1]]
+        }
+    };
+    let universe = |tables: &[(&str, usize)]| -> Vec<u128> {
+        let mut v = vec![];
+        for (t, col) in tables {
+            for row in as_array(comp.get(*t)).unwrap_or(&[]) {
+                if let Some(k) = row_key(row).get(*col) {
+                    v.push(*k);
+                }
+            }
+        }
+        v
+    };
+    let all_scripts: Vec<subtags::Script> = pick3(universe(&[("LANG_SCRIPT", 1), ("SCRIPT_ONLY", 0)])).into_iter().filter_map(script).collect();
+    let all_regions: Vec<subtags::Region> = pick3(universe(&[("LANG_REGION", 1), ("REGION_ONLY", 0)])).into_iter().filter_map(region).collect();
     let mut lookups = 0u64;
     let mut rows_tried = 0u64;
     let mut lookups_found = 0u64;
@@ -1024,6 +1048,36 @@ pub fn static_checks(comp: &BTreeMap<String, Val>, rf: &Reference) -> StaticRepo
                 lookups += 1;
                 if answer(p.ask).as_ref() != Some(&p.expect) {
                     missed.entry(p.idx).or_insert("asked right after a lookup next to it");
+                }
+            }
+        }
+        // pass 4 (round 7): each row right after a lookup that shares its first subtag but is
+        // answered from a *different* table (one component added or dropped) — a lookup whose
+        // memo or narrowed bounds are shared between tables (seeded `m30`: "language L has no rows
+        // in LANG_REGION" believed for LANG_SCRIPT) finds every row after any lookup in its own
+        // table and loses it after a probe of the neighbouring one
+        for p in &probes {
+            let (l, sc, rg) = p.ask;
+            // every combination of {the row's script, none, a few known scripts} with {the row's
+            // region, none, a few known regions} other than the row's own key
+            let mut scs: Vec<Option<subtags::Script>> = vec![sc, None];
+            scs.extend(all_scripts.iter().map(|x| Some(*x)));
+            let mut rgs: Vec<Option<subtags::Region>> = vec![rg, None];
+            rgs.extend(all_regions.iter().map(|x| Some(*x)));
+            let mut primers: Vec<Triple> = vec![];
+            for s2 in &scs {
+                for r2 in &rgs {
+                    let q = (l, *s2, *r2);
+                    if q != p.ask && !primers.contains(&q) {
+                        primers.push(q);
+                    }
+                }
+            }
+            for q in primers {
+                let _ = answer(q);
+                lookups += 1;
+                if answer(p.ask).as_ref() != Some(&p.expect) {
+                    missed.entry(p.idx).or_insert("asked right after a lookup that shares its first subtag and is answered from another table");
                 }
             }
         }
